@@ -409,6 +409,9 @@ func verifPointerDocs() []JsonNode {
 		}
 		out = append(out, jsonObject{"a/b": jsonObject{k: n(1)}}, jsonObject{"a/b": jsonObject{k: n(2)}}, jsonObject{k: n(1), "z": n(1)})
 	}
+	// the key "-" above the changed value, and as the changed member itself
+	out = append(out, jsonObject{"-": jsonObject{"x": n(1)}}, jsonObject{"-": jsonObject{"x": n(2)}}, jsonObject{"o": jsonObject{"-": jsonObject{"-": n(1)}}}, jsonObject{"o": jsonObject{"-": jsonObject{"-": n(2)}}},
+		jsonObject{"-": n(1)}, jsonObject{"-": n(2)}, jsonArray{jsonObject{"-": jsonObject{"k": n(1)}}}, jsonArray{jsonObject{"-": jsonObject{"k": n(2)}}})
 	return out
 }
 
